@@ -296,10 +296,15 @@ def generate(seed: int, tier: str = "quick") -> dict:
         fams.add(rw.choice(["uni", "uni", "aave", "gmx2"]))
     want = dict(primary.needs)
     world, ctx = compose(rw, [f for f in allf if f in fams], tier, want)
+    if R.sub(seed, "overdraft").random() < 0.06:
+        # an account that may be overdrawn: the wallet refuses nothing, so a call that fails does so later in the call
+        world["allow_negative_balance"] = True
     nb, opens, closed = _bars(world, ctx)
     mpb = ctx["mpb"]
     slots = {}  # (bar, phase index) -> list of op blocks
     faults = []
+    if world.get("allow_negative_balance"):
+        faults.append({"kind": "account_may_be_overdrawn"})
 
     def slot_for(family, place=None, min_bar=-1):
         if family == "deribit":
